@@ -300,13 +300,13 @@ func (a c05Addr) render2() string {
 	return local + "@" + a.Domain
 }
 
-var c05LocalChars = []string{" ", "<", ">", "@", ",", ";", ":", "\\", "\"", "a", "b", "x", ".", "é", "日", "NOTIFY=NEVER", "ORCPT=rfc822;y", "> ", " SIZE=1", "(", ")", "[", "]", "\t"}
+var c05LocalChars = []string{"%", "%s", "%%", "%d", "%!", " ", "<", ">", "@", ",", ";", ":", "\\", "\"", "a", "b", "x", ".", "é", "日", "NOTIFY=NEVER", "ORCPT=rfc822;y", "> ", " SIZE=1", "(", ")", "[", "]", "\t"}
 
 func c05GenAddr(t *rapid.T, label string, setters []string) c05Addr {
 	a := c05Addr{Domain: rapid.SampledFrom([]string{"example.com", "verif.example", "sub.domain.example.org", "xn--mnchen-3ya.example"}).Draw(t, label+"-domain")}
 	switch rapid.IntRange(0, 3).Draw(t, label+"-kind") {
 	case 0:
-		a.Local = rapid.SampledFrom([]string{"user", "first.last", "a", "user+tag", "o'brien", "x_y-z", "üser", "用户"}).Draw(t, label+"-atom")
+		a.Local = rapid.SampledFrom([]string{"user", "first.last", "a", "user+tag", "o'brien", "x_y-z", "üser", "用户", "100%sure", "a%%b", "user%example.org", "%v%d%s", "{curly}", "a|b", "~tilde", "back`tick", "#hash!", "$dollar&amp", "q?mark=eq", "^caret*star"}).Draw(t, label+"-atom")
 	default:
 		n := rapid.IntRange(1, 6).Draw(t, label+"-n")
 		var sb strings.Builder
@@ -365,7 +365,7 @@ func gen05Cred(t *rapid.T, label string) string {
 
 func TestC05(t *testing.T) {
 	rec := core.Rec("C05")
-	rec.Rule = "one message sent with DialAndSend to the strict reference server. rapid constructs (display?, local part, domain) triples whose local part is a dot-atom or a sequence over {space < > @ , ; : \\ \" ( ) [ ] TAB, UTF-8, 'NOTIFY=NEVER', 'ORCPT=rfc822;y', '> ', ' SIZE=1'} and renders the RFC 5322 input itself (quoted-string when needed); they go through From/FromFormat/EnvelopeFrom(Format)/AddTo/AddToFormat/ToFromString/AddCc(Format)/AddBcc(Format). " +
+	rec.Rule = "one message sent with DialAndSend to the strict reference server. rapid constructs (display?, local part, domain) triples whose local part is a dot-atom (incl. every atext special such as '%' and printf-like sequences) or a sequence over {'%' '%s' '%%' space < > @ , ; : \\ \" ( ) [ ] TAB, UTF-8, 'NOTIFY=NEVER', 'ORCPT=rfc822;y', '> ', ' SIZE=1'} and renders the RFC 5322 input itself (quoted-string when needed); they go through From/FromFormat/EnvelopeFrom(Format)/AddTo/AddToFormat/ToFromString/AddCc(Format)/AddBcc(Format). " +
 		"HELO names from {default, domain, address literal, with blank/TAB/CRLF+command/NUL, UTF-8, 300 characters}; user names and passwords (incl. CRLF + command, NUL, blanks, ',' '=', 400 characters, empty) for PLAIN/LOGIN/CRAM-MD5/XOAUTH2/SCRAM-SHA-1/-256; DSN off/default/custom RET and NOTIFY combinations; capability subsets. " +
 		"Oracle: every line outside DATA parses as exactly one RFC 5321 command (own strict parser: Reverse-path/Forward-path with Dot-string or Quoted-string local parts, esmtp-params, one EHLO argument); MAIL/RCPT carry only the configured parameters; the parsed paths (local part un-quoted) equal the mailbox the caller set, in To+Cc+Bcc order; or the value was refused and nothing malformed was sent. " +
 		"Non-trivial: a local part that needs quoting, or a HELO name/credential with a character outside [A-Za-z0-9.-]. Distinct by (setter/kind list, HELO, auth, credentials, DSN config, addresses)."
